@@ -82,6 +82,9 @@ func (c *containerImpl) Equals(node Node) bool {
 	if node == nil || !node.IsContainer() {
 		return false
 	}
+	if len(c.children) != len(node.(Container).Children()) {
+		return false
+	}
 	for k, v := range c.children {
 		other := node.(Container).Child(k)
 		if other == nil || !v.Equals(other) {
